@@ -26,10 +26,12 @@ TRUSTED = ['pandas merge / set_index / drop / reset_index: modelled by their con
            '(harness/common.py export_fixarr, harness/c02_util.py export_shape)',
            'the R-tree answers as a set (Model/Sjoin.v cand_scan; C03 proves it of the tree)']
 
-IMPORTS = 'Model.Num Model.Arrow Model.Bounds Model.PointKernels Model.PointShape Model.Sjoin Model.SjoinWf'
+IMPORTS = ('Model.Num Model.Arrow Model.Bounds Model.PointKernels Model.PointShape Model.Sjoin '
+           'Model.SjoinWf Model.SjoinHarness')
 CASE_TY = 'how * string * string * fmeta * fmeta * fixarr * list (option shape)'
 RES_TY = 'option (nat + (list orow * list string * list (option string) * string * list bbox))'
 FN = 'sjoin_case'
+VERDICT = 'sjoin_verdict'       # Model/SjoinHarness.v: 0 agree, 1 differ, 2 excluded input, 3 column order only
 Nat, Rec, Some, Raw = C.Nat, C.Rec, C.Some, C.Raw
 
 
@@ -322,21 +324,27 @@ def run_call(rep, fr, how, ls, rs, batch, meta_desc, model=True):
     rep.evaluations += 1
     rep.count('how:' + how)
     rep.count('right:' + rspec['kind'])
+    il, ir = gen_index_names(lspec, ls), gen_index_names(rspec, rs)
+    excl = U.excluded_input(how, ls, rs, lspec, fr.lorder, rspec, fr.rorder, il, ir)
     try:
         out = sjoin(fr.ldf, fr.rdf, how=how, lsuffix=ls, rsuffix=rs)
     except Exception as e:  # noqa: BLE001
-        cls = U.classify_exception(e)
-        if cls is None:
-            rep.violation(f'raises:{type(e).__name__}', f'sjoin raised {type(e).__name__}: {str(e)[:200]}',
-                          {**replay, 'repro': 'harness.c05 replay'})
-            return
-        rep.count('error:' + cls)
-        rep.nontrivial(('err', cls, how, repr(meta_desc)))
-        res = Some(Raw(f'(inl {U.ERR[cls]}%nat)'))
-        batch.append((fr, how, ls, rs, res, replay))
+        code = U.classify_exception(e)
+        rep.count('raised:' + U.ERR_CLASS[code])
+        if excl:
+            rep.count('excluded-input:' + excl)
+        else:
+            rep.nontrivial(('err', code, how, repr(meta_desc)))
+        res = Some(Raw(f'(inl {code}%nat)'))
+        batch.append((fr, how, ls, rs, res, {**replay, 'raised': f'{type(e).__name__}: {str(e)[:200]}'}))
+        return
+    if excl:
+        # outside the property: whatever comes back is not judged (the kernel verdict agrees: 2)
+        rep.count('excluded-input:' + excl)
+        batch.append((fr, how, ls, rs, None, replay))
         return
     # --- result type and shape
-    if type(out) is not GeoDataFrame:
+    if not isinstance(out, GeoDataFrame):
         rep.violation('not-geodataframe', f'sjoin returned {type(out).__name__}', replay)
         return
     try:
@@ -361,20 +369,16 @@ def run_call(rep, fr, how, ls, rs, batch, meta_desc, model=True):
         rep.violation(f'active-geometry:{how}', f'active geometry {active!r}, geometry column {geom_cols[0]!r}',
                       replay)
     # --- pandas contracts: values and labels of every row
-    il, ir = gen_index_names(lspec, ls), gen_index_names(rspec, rs)
     bad = U.check_values(out, rows, how, ls, rs, fr.ldf, lspec, fr.lorder, fr.rdf, rspec, fr.rorder, il, ir)
     if bad:
         rep.violation(f'values:{how}', 'a joined row does not carry its source rows\' values: ' + '; '.join(bad),
                       replay)
     # --- index names (property level); a 1-level MultiIndex is finding F1 (decision pending)
     kept = lspec if how != 'right' else rspec
-    if not (kept['index'][0] == 'multi' and len(kept['index'][1]) == 1):
-        if list(out.index.names) != U.index_names_of(kept):
-            rep.violation(f'index-names:{how}',
-                          f'index names {list(out.index.names)!r}, kept frame has {U.index_names_of(kept)!r}',
-                          replay)
-    else:
-        rep.count('finding-F1-scope')
+    if list(out.index.names) != U.index_names_of(kept):
+        rep.violation(f'index-names:{how}',
+                      f'index names {list(out.index.names)!r}, kept frame has {U.index_names_of(kept)!r}',
+                      replay)
     # --- brute force: scalar Point.intersects, no index, no boxes
     if fr.closed:
         bp = fr.brute()
@@ -441,17 +445,42 @@ def check_guards(rep, frames):
 
 
 def flush(rep, batch):
+    """kernel verdicts (Model/SjoinHarness.v sjoin_verdict) on the queued calls"""
     if not batch:
         return
-    cases = [case_term(fr, how, ls, rs) for fr, how, ls, rs, _, _ in batch]
-    ress = [b[4] for b in batch]
-    bad = C.coq_mismatches(IMPORTS, FN, CASE_TY, RES_TY, cases, ress, shard=150)
-    for i in bad[:10]:
-        fr, how, ls, rs, res, replay = batch[i]
-        model = C.coq_eval(IMPORTS, f'{FN} {C.coq(cases[i])}')
-        rep.violation(f'model-differs:{how}:{fr.rspec["kind"]}',
-                      'sjoin differs from the model (rows / columns / index names / geometry / bounds / error)',
-                      {**replay, 'impl': C.coq(res), 'model': model})
+    cases = [(case_term(fr, how, ls, rs), res) for fr, how, ls, rs, res, _ in batch]
+    ty = f'({CASE_TY}) * ({RES_TY})'
+    nonzero = C.coq_mismatches(IMPORTS, VERDICT, ty, 'nat', cases, [Nat(0)] * len(cases), shard=150)
+    if nonzero:
+        sub = [cases[i] for i in nonzero]
+        not2 = set(C.coq_mismatches(IMPORTS, VERDICT, ty, 'nat', sub, [Nat(2)] * len(sub), shard=150))
+        rest = [nonzero[k] for k in sorted(not2)]
+        rep.count('kernel:excluded-input', len(nonzero) - len(rest))
+        order_only = set()
+        if rest:
+            sub = [cases[i] for i in rest]
+            not3 = set(C.coq_mismatches(IMPORTS, VERDICT, ty, 'nat', sub, [Nat(3)] * len(sub), shard=150))
+            order_only = {rest[k] for k in range(len(rest)) if k not in not3}
+        rep.count('column-order-differs(names agree; order is not promised)', len(order_only))
+        shown = 0
+        for i in rest:
+            fr, how, ls, rs, res, replay = batch[i]
+            if i in order_only:
+                continue
+            if res is None:
+                # the harness's own statement of "excluded input" disagrees with the model's: nothing
+                # was observed about the implementation
+                rep.count('internal-unavailable:exclusion-predicate')
+                continue
+            if shown >= 10:
+                break
+            shown += 1
+            model = C.coq_eval(IMPORTS, f'{FN} {C.coq(cases[i][0])}')
+            sig = (f'raises:{replay["raised"].split(":")[0]}' if 'raised' in replay
+                   else f'model-differs:{how}:{fr.rspec["kind"]}')
+            rep.violation(sig, 'sjoin differs from the model (row multiset / column names / index names / '
+                               'geometry column / bounds / exception class)',
+                          {**replay, 'impl': C.coq(res), 'model': model})
     batch.clear()
 
 
@@ -656,8 +685,9 @@ def replay(rep, rp):
     if batch:
         fr, how, ls, rs, res, _ = batch[0]
         term = case_term(fr, how, ls, rs)
-        bad = C.coq_mismatches(IMPORTS, FN, CASE_TY, RES_TY, [term], [res])
+        verdict = C.coq_eval(IMPORTS, f'{VERDICT} ({C.coq(term)}, {C.coq(res)})')
         print('impl :', C.coq(res))
         print('model:', C.coq_eval(IMPORTS, f'{FN} {C.coq(term)}'))
-        ok = ok and not bad
+        print('verdict (0 agree, 1 differ, 2 excluded input, 3 column order only):', verdict)
+        ok = ok and verdict.strip() in ('0', '2', '3', '0%nat', '2%nat', '3%nat')
     return ok
